@@ -29,6 +29,10 @@ def run(repo, run, tier):
     dim_rule(repo, run, "C07.8", ["brentsrootvec"], floor=6)
     # the observation points: `events` / `events_dict` are views of the record list of the CURRENT trajectory; a view answered from something stored by an
     # earlier read (a cache keyed by the number of records, say) survives reset() and reports the previous run's events
+    # 'g(t_e, y_e) ~ 0': the event functions are evaluated, at every step, with the events and the constants in effect at THAT step (handle_events receives
+    # self.constants itself, read when it is called; a tuple of arguments captured before the loop keeps the dict a callback has since replaced)
+    from .c08 import bracket
+    bracket(repo, run, m, rule_id="C07.10")
     from .common import readonly
     readonly(repo, run, "C07.9", DS, ["OdeSystem.events", "OdeSystem.events_dict"], "the event views of the system (events, events_dict)")
 
